@@ -321,3 +321,45 @@ Proof.
       exists s, (skipn (S n) s). split; [assumption|]. split; [symmetry; apply firstn_skipn|].
       intro Hc. apply (f_equal (@length N)) in Hc. rewrite skipn_length in Hc. cbn in Hc. lia.
 Qed.
+
+(* ---------- the cut is the longest well-formed prefix that fits ---------- *)
+
+Lemma valid_cancel : forall w x, valid_utf8 w -> valid_utf8 (w ++ x) -> valid_utf8 x.
+Proof.
+  intros w x Hw Hwx. pose proof (to_valid_id _ Hwx) as H1.
+  rewrite to_valid_valid_app in H1 by assumption. apply app_inv_head in H1.
+  rewrite <- H1. apply to_valid_is_valid.
+Qed.
+
+Lemma incomplete_prefix : forall r r', incomplete_seq r -> r' <> [] -> is_prefix_of r' r -> incomplete_seq r'.
+Proof.
+  intros r r' [Hne (s & x & Hs & Heq & Hx)] Hne' [y Hy]. split; [assumption|].
+  exists s, (y ++ x). split; [assumption|]. split.
+  - rewrite Heq, Hy, <- app_assoc. reflexivity.
+  - intro Hc. apply app_eq_nil in Hc. destruct Hc as [_ Hc]. contradiction.
+Qed.
+
+Lemma incomplete_not_valid : forall r, incomplete_seq r -> ~ valid_utf8 r.
+Proof.
+  intros r Hr Hv. pose proof (incomplete_dropped r Hr) as Hd. rewrite (to_valid_id r Hv) in Hd.
+  destruct Hr as [Hne _]. contradiction.
+Qed.
+
+(* among the prefixes of (w ++ r) with w well formed and r an incomplete sequence, none longer than w is well formed *)
+Lemma longest_valid_prefix : forall w r q, valid_utf8 w -> (r = [] \/ incomplete_seq r) ->
+  is_prefix_of q (w ++ r) -> valid_utf8 q -> (length q <= length w)%nat.
+Proof.
+  intros w r q Hw Hr [y Hy] Hq.
+  destruct (Nat.le_gt_cases (length q) (length w)) as [|Hgt]; [assumption|exfalso].
+  (* q = w ++ r' with r' a non-empty prefix of r *)
+  assert (Hq' : q = w ++ firstn (length q - length w) r).
+  { assert (H1 : firstn (length q) (w ++ r) = q) by (rewrite Hy, firstn_app, Nat.sub_diag, firstn_all, firstn_O, app_nil_r; reflexivity).
+    rewrite firstn_app in H1. rewrite firstn_all2 in H1 by lia. symmetry. exact H1. }
+  set (r' := firstn (length q - length w) r) in *.
+  assert (Hr'ne : r' <> []).
+  { intro Hc. rewrite Hc, app_nil_r in Hq'. subst q. lia. }
+  destruct Hr as [->|Hr]; [unfold r' in Hr'ne; rewrite firstn_nil in Hr'ne; congruence|].
+  assert (Hinc : incomplete_seq r').
+  { apply (incomplete_prefix r r' Hr Hr'ne). exists (skipn (length q - length w) r). symmetry. apply firstn_skipn. }
+  apply (incomplete_not_valid r' Hinc). apply (valid_cancel w r' Hw). rewrite <- Hq'. assumption.
+Qed.
